@@ -362,7 +362,7 @@ func (e *env) runClient(ci int, rng *rand.Rand, addr string, stopEngine func()) 
 	switch e2e.WaitQuiet(cs.readDone, prog, 150*time.Second) {
 	case "quiet":
 		if end == "client-close-frame" && cs.sentClose {
-			e.violate("c14:"+e.cls+":connection-left-open-after-close-frame", fmt.Sprintf("client #%d (%s) sent a close frame (1000) after the whole history; the server never closed the connection: the history is final (process idle, no progress for 3 s)\n%s", ci, cs.local, e.log.Slice(cs.local, 30)))
+			e.violate("c14:"+e.cls+":connection-left-open-after-close-frame", fmt.Sprintf("client #%d (%s) sent a close frame (1000) after the whole history; the server never closed the connection: the history is final (process idle, no goroutine runnable, no progress for 3 s)\nserver side: %s\n%s", ci, cs.local, e.serverState(cs.local), e.log.Slice(cs.local, 30)))
 		} else {
 			e.r.Count("connections_still_open_at_quiescence(not asserted)", 1)
 		}
